@@ -34,8 +34,8 @@ struct State {
   active_mappings: Vec<Mapping>,
   pass_through_keys: Vec<KeyCode>,
   mapped_output_keys: Vec<KeyCode>,
-  mapped_absorbed_keys: Vec<KeyCode>,
-  absorbing_trigger: Option<KeyCode>,
+  // (absorbed key, the key whose press fired the mapping that absorbed it)
+  mapped_absorbed_keys: Vec<(KeyCode, KeyCode)>,
   repeating_trigger: Option<KeyCode>
 }
 
@@ -47,7 +47,6 @@ impl State {
       pass_through_keys: Vec::new(),
       mapped_output_keys: Vec::new(),
       mapped_absorbed_keys: Vec::new(),
-      absorbing_trigger: None,
       repeating_trigger: None,
     };
   }
@@ -286,14 +285,9 @@ fn add_new_mapping(state: &mut State, new_key: &KeyCode, m: &Mapping) -> StepRes
   
   if is_action_mapping(m) {
     events.append(&mut release_action_mappings(state));
-    let should_absorb = {
-      match &state.absorbing_trigger {
-        Some(absorbing_trigger) => *absorbing_trigger != *new_key,
-        None => true
-      }
-    };
-    if should_absorb {
-      events.append(&mut release_absorbed_keys(state));
+    // Keys absorbed under this same trigger key still count for it; the others are done.
+    if state.mapped_absorbed_keys.iter().any(|(_, trigger)| *trigger != *new_key) {
+      events.append(&mut release_absorbed_keys(state, Some(*new_key)));
       // Dropping an absorbed mapping may have handed one of its output keys back
       // to pass-through; if the new mapping consumes that key, consume it now.
       consume_pass_through_keys(state, m, &mut events);
@@ -328,12 +322,8 @@ fn add_new_mapping(state: &mut State, new_key: &KeyCode, m: &Mapping) -> StepRes
   }
   
   for absorbed_key in &m.absorbing {
-    if !state.mapped_absorbed_keys.contains(absorbed_key) {
-      state.mapped_absorbed_keys.push(*absorbed_key);
-    }
-  }
-  if m.absorbing.len() > 0 {
-    state.absorbing_trigger = Some(*new_key);
+    state.mapped_absorbed_keys.retain(|(k, _)| k != absorbed_key);
+    state.mapped_absorbed_keys.push((*absorbed_key, *new_key));
   }
   
   state.active_mappings.push(m.clone());
@@ -397,12 +387,20 @@ fn release_all_action_keys(state: &mut State) -> Vec<Event> {
   to_release.iter().map(|k| Released(*k)).collect()
 }
 
-fn release_absorbed_keys(state: &mut State) -> Vec<Event> {
+// Releases and forgets the absorbed keys, except those absorbed under `keep_trigger`.
+fn release_absorbed_keys(state: &mut State, keep_trigger: Option<KeyCode>) -> Vec<Event> {
   let mut events: Vec<Event> = Vec::new();
   
   let mut to_remove: Vec<KeyCode> = Vec::new();
-  to_remove.append(&mut state.mapped_absorbed_keys);
-  state.absorbing_trigger = None;
+  state.mapped_absorbed_keys.retain(|(k, trigger)| {
+    if Some(*trigger) == keep_trigger {
+      true
+    }
+    else {
+      to_remove.push(*k);
+      false
+    }
+  });
   
   for k in to_remove {
     {
@@ -437,25 +435,15 @@ fn newly_press(mapper: &mut Mapper, k: KeyCode) -> StepResult {
   
   let mut any_hit: bool = false;
   
-  state.mapped_absorbed_keys.retain(|k2| *k2 != k);
+  state.mapped_absorbed_keys.retain(|(k2, _)| *k2 != k);
   state.repeating_trigger = None;
   
   if let Some(mappings) = mappings.get(&k) {
-    let should_absorb = {
-      match &state.absorbing_trigger {
-        Some(absorbing_trigger) => *absorbing_trigger != k,
-        None => true
-      }
-    };
-    
-    let absorbed_keys = {
-      if should_absorb {
-        state.mapped_absorbed_keys.clone()
-      }
-      else {
-        vec![]
-      }
-    };
+    // A key absorbed under another trigger key does not count for this press.
+    let absorbed_keys: Vec<KeyCode> = state.mapped_absorbed_keys.iter()
+      .filter(|(_, trigger)| *trigger != k)
+      .map(|(k2, _)| *k2)
+      .collect();
     
     for mapping in mappings.iter().rev() {
       if is_supported(&mapping.from, &state.input_pressed_keys, &absorbed_keys, &k) {
@@ -483,7 +471,7 @@ fn newly_press(mapper: &mut Mapper, k: KeyCode) -> StepResult {
     if !state.pass_through_keys.contains(&k) {
       if is_action_key(&k) {
         res.events.append(&mut release_action_mappings(&mut state));
-        res.events.append(&mut release_absorbed_keys(&mut state));
+        res.events.append(&mut release_absorbed_keys(&mut state, None));
       }
       
       res.events.push(Pressed(k));
